@@ -66,6 +66,9 @@ func (b *Block) TxsIsNil() bool {
 // Basic validation that doesn't involve state data.
 func (b *Block) ValidateBasic(chainID string, lastBlockHeight int64, lastBlockID BlockID,
 	lastBlockTime time.Time, appHash, receiptsHash []byte) error {
+	if b == nil || b.Header == nil || b.Data == nil || b.LastCommit == nil {
+		return errors.New("Block is missing its header, data or last commit")
+	}
 	if b.ChainID != chainID {
 		return errors.New(gcmn.Fmt("Wrong Block.Header.ChainID. Expected %v, got %v", chainID, b.ChainID))
 	}
@@ -276,14 +279,14 @@ func (commit *Commit) FirstPrecommit() *Vote {
 }
 
 func (commit *Commit) Height() int64 {
-	if len(commit.Precommits) == 0 {
+	if commit.FirstPrecommit() == nil {
 		return 0
 	}
 	return commit.FirstPrecommit().Height
 }
 
 func (commit *Commit) Round() int64 {
-	if len(commit.Precommits) == 0 {
+	if commit.FirstPrecommit() == nil {
 		return 0
 	}
 	return commit.FirstPrecommit().Round
@@ -325,7 +328,7 @@ func (commit *Commit) ValidateBasic() error {
 	if commit.BlockID.IsZero() {
 		return errors.New("Commit cannot be for nil block")
 	}
-	if len(commit.Precommits) == 0 {
+	if commit.FirstPrecommit() == nil {
 		return errors.New("No precommits in commit")
 	}
 	height, round := commit.Height(), commit.Round()
